@@ -235,6 +235,43 @@ pub fn tokens(ctx: &mut Ctx) {
     }
 }
 
+/// the same texts under different instruction sets, in alternation on one thread: what a token is depends
+/// on the set passed to THIS call (a set that grew, another set of the same size, an empty set)
+pub fn sets(ctx: &mut Ctx) {
+    fn with(extra: Option<&str>, load: bool) -> Real {
+        let mut iset = pushr::push::instructions::InstructionSet::new();
+        if load {
+            iset.load();
+        }
+        if let Some(n) = extra {
+            iset.add(n.to_string(), pushr::push::instructions::Instruction::new(|_s: &mut pushr::push::state::PushState, _c: &pushr::push::instructions::InstructionCache| {}));
+        }
+        let icache = iset.cache();
+        Real { iset, icache }
+    }
+    let s0 = with(None, true);
+    let s1 = with(Some("foo"), true);
+    let s2 = with(Some("bar"), true);
+    let s3 = with(None, false);
+    let order: Vec<(&str, &Real)> = vec![("default", &s0), ("default+foo", &s1), ("default+bar", &s2), ("default+foo", &s1), ("empty set", &s3), ("default", &s0), ("default+bar", &s2)];
+    let mut toks: Vec<&str> = TOKENS.to_vec();
+    toks.push("bar");
+    let base = vec![("empty", M::default())];
+    let mut texts: Vec<String> = vec![String::new()];
+    for a in &toks {
+        texts.push(a.to_string());
+        for b in &toks {
+            texts.push(format!("{} {}", a, b));
+        }
+    }
+    texts.push("( foo ( bar INTEGER.+ ) foo )".to_string());
+    for t in &texts {
+        for (_label, real) in &order {
+            run_input(ctx, real, &base, t);
+        }
+    }
+}
+
 pub fn chars(ctx: &mut Ctx) {
     let real = Real::new();
     let k = if ctx.tier_thorough { 7 } else { 5 };
@@ -428,13 +465,60 @@ pub fn roundtrip(ctx: &mut Ctx, floats: bool) {
     }
 }
 
+/// a token that was a name while it was not registered is an instruction once it is (InstructionSet::add):
+/// round trips under the set as it is at the time
+pub fn roundtrip_sets(ctx: &mut Ctx) {
+    let mut real = Real::new();
+    for phase in 0..2 {
+        let atoms = if phase == 0 { vec![Tree::name("EXTRA.ONE"), Tree::I(1)] } else { vec![Tree::ins("EXTRA.ONE"), Tree::name("EXTRA.TWO"), Tree::I(1)] };
+        if phase == 1 {
+            real.iset.add("EXTRA.ONE".to_string(), pushr::push::instructions::Instruction::new(|_s: &mut pushr::push::state::PushState, _c: &pushr::push::instructions::InstructionCache| {}));
+            real.icache = real.iset.cache();
+        }
+        for t in trees_up_to(3, &atoms) {
+            let id = match ctx.take() {
+                Some(id) => id,
+                None => continue,
+            };
+            ctx.transitions += 1;
+            ctx.states += 1;
+            let mut problems: Vec<(String, String)> = vec![];
+            let mut okey = String::new();
+            match print_routes(&mut real, &t) {
+                Err(p) => problems.push((panic_class(&p), p)),
+                Ok(routes) => {
+                    for (route, text, original) in routes {
+                        okey = text.clone();
+                        match parse_real(&real, &M::default(), &text) {
+                            Outcome::Panic(p) => problems.push((panic_class(&p), format!("{}: parsing {:?}: {}", route, text, p))),
+                            Outcome::Ok(g) => {
+                                if g.e != original {
+                                    problems.push((format!("roundtrip:{}", route), format!("phase {} (EXTRA.ONE {}registered): printed {:?}; parsed back as [{}], original [{}]", phase, if phase == 0 { "not " } else { "" }, text, g.e.iter().map(|x| x.key()).collect::<Vec<_>>().join(" "), original.iter().map(|x| x.key()).collect::<Vec<_>>().join(" "))));
+                                }
+                            }
+                        }
+                    }
+                }
+            }
+            let verdict = match problems.first() {
+                None => Verdict::Pass,
+                Some((class, detail)) => Verdict::fail("print/parse", class, detail.clone()),
+            };
+            ctx.nontrivial_mark(&format!("{}|{}", phase, okey));
+            ctx.record(id, &format!("{}|{}", phase, okey), verdict, || format!("phase {} tree {}", phase, t.key()));
+        }
+    }
+}
+
 pub fn run(ctx: &mut Ctx) {
     match (ctx.prop.as_str(), ctx.family.as_str()) {
         ("C03", "tokens") => tokens(ctx),
         ("C03", "chars") => chars(ctx),
         ("C03", "ladder") => ladder(ctx),
+        ("C03", "sets") => sets(ctx),
         ("C11", "exact") => roundtrip(ctx, false),
         ("C11", "floats") => roundtrip(ctx, true),
+        ("C11", "sets") => roundtrip_sets(ctx),
         (p, f) => panic!("unknown family {} {}", p, f),
     }
 }
